@@ -259,6 +259,12 @@ func runMix(seed int64, nInstants int, count func(string)) (int, []lib.Failure, 
 	n := len(urls)
 	compare := func(mode string, us []string, ps []proj) {
 		for i, u := range us {
+			if _, compared := ref[u]; !compared {
+				if ps[i].Panic != "" {
+					fail("panic:page", fmt.Sprintf("%s: handler panic %s", u, ps[i].Panic), u, mode)
+				}
+				continue // pages: part of the concurrent traffic, not of the equality claim
+			}
 			if ps[i] != ref[u] {
 				fail(mode+":"+kindOf(u), fmt.Sprintf("%s: %s gave %v, the fresh server gave %v", u, mode, ps[i], ref[u]), u, mode)
 			}
@@ -267,6 +273,9 @@ func runMix(seed int64, nInstants int, count func(string)) (int, []lib.Failure, 
 	}
 	// 2. the same server, now long-running: shuffled, every URL twice, 16 goroutines
 	sh := append(append([]string{}, urls...), urls...)
+	for k := 0; k < 20; k++ {
+		sh = append(sh, "/assets", "/urlgen/", "/vod/testpic_2s/Manifest.mpd", "/vod/testpic_2s/V300/1.m4s", "/", "/reqcount", "/healthz", "/favicon.ico", "/config")
+	}
 	rng.Shuffle(len(sh), func(i, j int) { sh[i], sh[j] = sh[j], sh[i] })
 	compare("concurrent-long-running", sh, serveAll(first, sh, 16))
 	// 3. a second fresh server, reverse order
